@@ -39,6 +39,10 @@ add("C19", "Theorems about the hand-written model Traits.v (Eq/Ord/PartialOrd/Ha
     "Model hand-written; the content of the property is mostly in the tie (that the impls delegate to as_ref). The payload's own Ord/Hash laws are premises.",
     "Coq proof over hand-written model + exhaustive-family differential check")
 
+add("C07", "Partial. Proved (Coq, all programs, schedules and oracles, no bound on structure size): in the model Rc.v the continuation stack of every thread holds dispose_general_node frames whose depth arguments strictly decrease down the stack and lie in [0, DEPTH_CAP]; at most DEPTH_CAP invocations are past their depth test and at most one more has been entered; an invocation entered at DEPTH_CAP defers its object and returns; try_destruct frames only ever sit on dispose-free stacks (so deferral really unwinds). DEPTH_CAP = 1024 is regenerated from src/utils.rs on every run and pinned by a theorem. Tied to the code by the chain stream (pass sizes of real chain destructions, incl. the 1024-node segments produced by the cap, predicted exactly by running Rc.micro on the same chain: RcChain.v) and the rc stream (trees/diamonds). What a theorem cannot carry - bytes per invocation versus the stack a thread has - is decided by stack probes: chains of up to 10^6 nodes destroyed on threads with 256 KiB..8 MiB stacks in child processes, all nodes reclaimed. Known finding D10: stacks of 128 KiB or less overflow (reported as KNOWN-FINDING).",
+    "Model hand-written; tie sampled. The runtime half (frame size x depth <= stack) is tested, not proved. The payload's own Drop is assumed not to recurse.",
+    "Coq proof (inductive invariant on the continuation stack) + schedule-driven/differential correspondence + stack probes")
+
 def chk(pid):
     c = C[pid]
     return {
@@ -61,7 +65,6 @@ PENDING = {
     "C04": "model M3 under construction; not yet registered",
     "C05": "model M3 under construction; not yet registered",
     "C06": "needs M3 with links; not yet registered",
-    "C07": "needs M3 with links; not yet registered",
     "C10": "model M3 under construction; not yet registered",
     "C15": "model M2 (Ebr.v) exists; proofs under construction",
     "C16": "sequential guard model under construction",
